@@ -23,6 +23,7 @@ type StmtLog struct {
 	Kind string // begin commit rollback exec query
 	SQL  string
 	Site string // first frame inside /repo
+	Path string // /repo call chain below DBlockSync / SyncBlock, outermost first
 }
 
 type SQLWrap struct {
@@ -52,10 +53,12 @@ func (w *SQLWrap) Count() int {
 	return w.n
 }
 
-func repoSite() string {
-	pcs := make([]uintptr, 40)
+func repoSite() (string, string) {
+	pcs := make([]uintptr, 60)
 	n := runtime.Callers(3, pcs)
 	frames := runtime.CallersFrames(pcs[:n])
+	site := "?"
+	var chain []string
 	for {
 		fr, more := frames.Next()
 		if strings.Contains(fr.File, "/repo/") || strings.Contains(fr.Function, "pegnet/pegnetd/") {
@@ -68,13 +71,27 @@ func repoSite() string {
 			if j := strings.LastIndex(fn, "."); j >= 0 {
 				fn = fn[j+1:]
 			}
-			return fmt.Sprintf("%s:%s", file, fn)
+			if site == "?" {
+				site = fmt.Sprintf("%s:%s", file, fn)
+			}
+			if fn != "DBlockSync" && fn != "SyncBlock" && !strings.HasPrefix(fn, "func") {
+				if len(chain) == 0 || chain[len(chain)-1] != fn {
+					chain = append(chain, fn)
+				}
+			}
 		}
 		if !more {
 			break
 		}
 	}
-	return "?"
+	// outermost first
+	for i, j := 0, len(chain)-1; i < j; i, j = i+1, j-1 {
+		chain[i], chain[j] = chain[j], chain[i]
+	}
+	if len(chain) == 0 {
+		chain = []string{"DBlockSync"}
+	}
+	return site, strings.Join(chain, ">")
 }
 
 // before is called ahead of every statement; a non-nil error is the injected fault.
@@ -82,14 +99,14 @@ func (w *SQLWrap) before(kind, q string) error {
 	w.mu.Lock()
 	w.n++
 	n := w.n
-	var site string
+	var site, path string
 	if w.Record {
-		site = repoSite()
+		site, path = repoSite()
 		s := strings.Join(strings.Fields(q), " ")
 		if len(s) > 70 {
 			s = s[:70]
 		}
-		w.Log = append(w.Log, StmtLog{N: n, Kind: kind, SQL: s, Site: site})
+		w.Log = append(w.Log, StmtLog{N: n, Kind: kind, SQL: s, Site: site, Path: path})
 	}
 	kill := w.KillAt != 0 && n == w.KillAt
 	fail := w.FailAt[n]
